@@ -1,4 +1,5 @@
 import PyaModel.Proofs.C05
+import PyaModel.Proofs.C05Star
 /-!
 # Props/C05 — argument-to-parameter binding agrees with CPython
 
@@ -35,5 +36,126 @@ example : cpyBind exSig ⟨2, ["d", "a"]⟩ = true := by decide     -- f(1, 2, d
 example : cpyBind exSig ⟨2, ["b", "d"]⟩ = false := by decide    -- f(1, 2, b=1, d=1): multiple values
 example : (pyaBind exSig.params (litActual 2 ["d", "a"])).isSome = true := by decide
 example : pyaBind exSig.params (litActual 2 ["b", "d"]) = none := by decide
+
+/-! ## Second sentence of C05: `*args` / `**kwargs` of unknown length
+
+Stated at the level of `Actual` (what `preprocess_args` hands to `bind_arguments`), for *plain*
+actuals: every positional and keyword definitely provided, keyword names distinct
+(`Actual.plain`, Spec/Expand.lean). `IsExpansion a k extra`: the concrete call with `k` elements
+taken from `*args` and keyword names `extra` taken from `**kwargs`; `NonEmpty a k extra`: at
+least one element is taken from every star argument that is present. -/
+
+/-- **C05 (A), with the witness named.** If pyanalyze's binder accepts a plain actual, the
+expansion computed from the signature binds under CPython: `witK s a` elements from `*args`
+(just enough to reach the last positional parameter without default; `0` without `*args`) and
+the keyword names `witExtra s a` from `**kwargs` (the required keyword-capable parameters that
+are still unfilled). -/
+theorem bind_star_accept_witness (s : DefSig) (hwf : s.WF) (a : Actual) (hp : a.plain = true)
+    (h : pyaBind s.params a ≠ none) :
+    IsExpansion a (witK s a) (witExtra s a) ∧
+      cpyBind s ⟨a.pos.length + witK s a, a.kws.map (·.1) ++ witExtra s a⟩ = true :=
+  accept_witness s hwf a hp h
+
+/-- **C05 (A), full strength: accepted ⇒ some concrete expansion binds.** For every `def`
+header with distinct names and every plain actual (any number of positionals and keywords,
+`*args` and/or `**kwargs` of unknown length or neither), if the binder does not fail then there
+are `k` and `extra` forming an expansion of the star arguments such that CPython binds the
+concrete call. No exception class. -/
+theorem bind_star_accept (s : DefSig) (hwf : s.WF) (a : Actual) (hp : a.plain = true)
+    (h : pyaBind s.params a ≠ none) :
+    ∃ k extra, IsExpansion a k extra ∧
+      cpyBind s ⟨a.pos.length + k, a.kws.map (·.1) ++ extra⟩ = true :=
+  ⟨witK s a, witExtra s a, accept_witness s hwf a hp h⟩
+
+/-- The full-strength statement of clause (B) for one signature and actual: rejected ⇒ no
+expansion that takes at least one element from every star argument binds. It is *false* of
+pyanalyze in the class `D05_starThenKw` (`starThenKw_witness`). -/
+def BindStarReject (s : DefSig) (a : Actual) : Prop :=
+  pyaBind s.params a = none → ∀ k extra, IsExpansion a k extra → NonEmpty a k extra →
+    cpyBind s ⟨a.pos.length + k, a.kws.map (·.1) ++ extra⟩ = false
+
+/-- **C05 (B): rejected ⇒ no non-empty expansion binds, outside `starThenKw`.** For every
+`def` header with distinct names and every plain actual that is not in the exception class
+`D05_starThenKw` (`*args` present and a keyword naming a positional-or-keyword parameter
+strictly after the first slot `*args` would fill), if the binder fails then CPython raises
+`TypeError` for every expansion taking at least one element from every star argument. Every
+other failing branch of `bindStep` / `bindFinish` is covered; no further exception class is
+needed. -/
+theorem bind_star_reject_partial (s : DefSig) (hwf : s.WF) (a : Actual) (hp : a.plain = true)
+    (hD : D05_starThenKw s.params a = false) : BindStarReject s a :=
+  fun h k extra hexp hne => reject_core s hwf a hp hD h k extra hexp hne
+
+/-- `def f(a, b)` and the call `f(*xs, b=1)`. -/
+def starThenKwSig : DefSig :=
+  { po := [], pk := [⟨"a", false⟩, ⟨"b", false⟩], vp := none, ko := [], vk := none }
+def starThenKwAct : Actual :=
+  { pos := [], starArgs := true, kws := [("b", true)], starKw := false, kwReq := false }
+
+/-- **Witness for the exception class `starThenKw`.** `def f(a, b)`, `f(*xs, b=1)`: the input
+is well-formed, plain and in the class; pyanalyze rejects the call although the non-empty
+expansion `xs = [1]` (the call `f(1, b=1)`) binds — so `BindStarReject` is false here. -/
+theorem starThenKw_witness :
+    starThenKwSig.WF ∧ starThenKwAct.plain = true ∧
+    D05_starThenKw starThenKwSig.params starThenKwAct = true ∧
+    pyaBind starThenKwSig.params starThenKwAct = none ∧
+    IsExpansion starThenKwAct 1 [] ∧ NonEmpty starThenKwAct 1 [] ∧
+    cpyBind starThenKwSig ⟨starThenKwAct.pos.length + 1, starThenKwAct.kws.map (·.1) ++ []⟩ = true ∧
+    ¬ BindStarReject starThenKwSig starThenKwAct := by
+  refine ⟨by unfold DefSig.WF; decide, by decide, by decide, by decide, by decide, by decide,
+    by decide, ?_⟩
+  intro h
+  have := h (by decide) 1 [] (by decide) (by decide)
+  exact absurd this (by decide)
+
+/-! ### The same two clauses for statically shaped syntactic calls (`Arg` lists)
+
+`preprocess` (the model of `preprocess_args`) turns the argument list into an `Actual`, which is
+always plain (`preprocess_plain`); all `*xs` of unknown length are merged into one `starArgs`
+flag and all `**d` into one `starKw` flag, so "one element from every star argument" implies
+`NonEmpty`. -/
+
+/-- (A) through `preprocess`: an accepted call has a binding expansion. -/
+theorem call_star_accept (s : DefSig) (hwf : s.WF) (args : List Arg) (a : Actual)
+    (hpre : preprocess args = some a) (h : pyaCall s.params args ≠ none) :
+    ∃ k extra, IsExpansion a k extra ∧
+      cpyBind s ⟨a.pos.length + k, a.kws.map (·.1) ++ extra⟩ = true := by
+  refine bind_star_accept s hwf a (preprocess_plain args a hpre) ?_
+  simpa [pyaCall, hpre] using h
+
+/-- (B) through `preprocess`: a call rejected by the binder (not already by `preprocess_args`)
+and outside `starThenKw` has no binding non-empty expansion. -/
+theorem call_star_reject_partial (s : DefSig) (hwf : s.WF) (args : List Arg) (a : Actual)
+    (hpre : preprocess args = some a) (hD : D05_starThenKw s.params a = false)
+    (h : pyaCall s.params args = none) : ∀ k extra, IsExpansion a k extra → NonEmpty a k extra →
+      cpyBind s ⟨a.pos.length + k, a.kws.map (·.1) ++ extra⟩ = false :=
+  bind_star_reject_partial s hwf a (preprocess_plain args a hpre) hD
+    (by simpa [pyaCall, hpre] using h)
+
+/-! Non-vacuity of every hypothesis set, on `def f(a, /, b, c=0, *args, d, e=0, **kw)` (`exSig`)
+with both star arguments present. -/
+
+/-- `f(1, *xs, e=1, **d)`: accepted. -/
+def exStarAcc : Actual :=
+  { pos := [true], starArgs := true, kws := [("e", true)], starKw := true, kwReq := true }
+/-- `f(1, 2, *xs, b=1, **d)`: rejected (`b` filled twice), not in `starThenKw`. -/
+def exStarRej : Actual :=
+  { pos := [true, true], starArgs := true, kws := [("b", true)], starKw := true, kwReq := true }
+
+-- hypotheses of (A): well-formed, plain, accepted; the computed witness is f(1, x1, e=1, d=…)
+example : exSig.WF ∧ exStarAcc.plain = true ∧ pyaBind exSig.params exStarAcc ≠ none := by
+  refine ⟨by unfold DefSig.WF; decide, by decide, by decide⟩
+example : witK exSig exStarAcc = 1 ∧ witExtra exSig exStarAcc = ["d"] := by decide
+example : cpyBind exSig ⟨1 + 1, ["e"] ++ ["d"]⟩ = true := by decide
+-- hypotheses of (B): well-formed, plain, outside the class, rejected; non-empty expansions exist
+example : exSig.WF ∧ exStarRej.plain = true ∧ D05_starThenKw exSig.params exStarRej = false ∧
+    pyaBind exSig.params exStarRej = none ∧
+    IsExpansion exStarRej 1 ["d"] ∧ NonEmpty exStarRej 1 ["d"] := by
+  refine ⟨by unfold DefSig.WF; decide, by decide, by decide, by decide, by decide, by decide⟩
+example : cpyBind exSig ⟨2 + 1, ["b"] ++ ["d"]⟩ = false := by decide
+-- the same through `preprocess`: f(1, *xs, e=1, **d) and f(1, 2, *xs, b=1, **d)
+example : preprocess [.pos, .starUnk, .kw "e", .dstarUnk] = some exStarAcc := by rfl
+example : preprocess [.pos, .pos, .starUnk, .kw "b", .dstarUnk] = some exStarRej := by rfl
+-- (B) also speaks about rejections with a single star argument, e.g. `def f(a)`: f(1, *xs)
+example : pyaBind [⟨"a", .posOrKw, false⟩] ⟨[true], true, [], false, false⟩ = none := by decide
 
 end Pya
